@@ -63,6 +63,10 @@ def _variant_cfg(fam, var):
         import os as _os
         sat = _json.load(open(_os.path.join(su.CFG_DIR, "sensor_sets", "sat_sensors.json")))
         eng["sensors"] = eng["sensors"] + sat[:var["space_sensors"]]          # other (space-based) agents join
+    if var.get("filter_model_differs"):
+        # the FILTER's dynamics model is an estimation setting: it must not influence any truth trajectory
+        other = "special_perturbations" if fam["model"] == "two_body" else "two_body"
+        cfg["estimation"]["sequential_filter"]["dynamics_model"] = other
     if var.get("adaptive"):
         sf = cfg["estimation"]["sequential_filter"]
         sf["maneuver_detection"] = {"name": "standard_nis", "threshold": 0.5, "parameters": {}}
@@ -180,6 +184,8 @@ def make_families(ctx: Ctx, rng):
         {"extra_target": 1},
         {"split_at": 2},
         {"space_sensors": 2, "table_env": True, "env_seed": 4},
+        {"space_sensors": 2, "filter_model_differs": True, "table_env": True, "env_seed": 5},
+        {"filter_model_differs": True, "events": [{"kind": "addTarget", "t0": None}], "table_env": True, "env_seed": 8},
         {"adaptive": "smm", "table_env": True, "env_seed": 6, "schedule": "lifo"},                                        # the run is split exactly at the family's impulse epoch
         {"drop_sensor": 0, "schedule": "random", "sched_seed": 2},
         {"events": [{"kind": "removeSensor", "t0": None, "index": -1}]},   # another agent leaves mid-run
@@ -198,6 +204,7 @@ def make_families(ctx: Ctx, rng):
     for fi, (model, integ, step, start) in enumerate(specs):
         n = 4 if ctx.quick else 6
         for with_impulse in ((False, True) if fi % 2 == 0 or not ctx.quick else (False,)):
+            fam_event_t0 = [step, 2 * step, step + 1][fi % 3]
             fam = {"model": model, "integrator": integ, "step": step, "start": start, "nsteps": n, "nt": 2, "ns": 3,
                    "events": ([{"kind": "impulse", "t0": 2 * step, "planned": False}] if with_impulse else []), "variants": []}
             for var in base_variants:
@@ -208,7 +215,9 @@ def make_families(ctx: Ctx, rng):
                     var["split"] = [var.pop("split_at"), n - 2]
                 for e in var.get("events", []):
                     if e.get("t0") is None:
-                        e["t0"] = rng.choice([step, 2 * step, step + 1])
+                        # the epoch at which ANOTHER agent joins / leaves is the same in every variant of the family:
+                        # the joining agent's own trajectory is defined from that epoch on
+                        e["t0"] = fam_event_t0
                 fam["variants"].append(var)
             if not ctx.quick:
                 fam["variants"].append({"drop_target": 1, "truth_only": True})
